@@ -10,7 +10,8 @@
       - disable/snooze comments, ignoreMetrics, recording rules of the checked set, and
         ignoreMatchingElsewhere (which needs another server) exempt a selector from the Bug. *)
 From Coq Require Import List String ZArith NArith Bool Lia.
-From PintV Require Import Common.Bytes Common.GoTime Model.Range Model.RangeRef Model.Series Proofs.C16_series.
+From PintV Require Import Common.Bytes Common.GoTime Model.Range Model.RangeRef Model.Series Proofs.C16_series
+  Model.SeriesSelectors Proofs.C16_selectors.
 Import ListNotations.
 Open Scope Z_scope.
 
@@ -177,6 +178,35 @@ Theorem C16_matcher_never_matches_is_reported : forall re d now st up base_gaps 
   step567_one re d now st up base_gaps s lm = MProblems [nonexistent (sev_of st s)].
 Proof. intros. apply matcher_never_matches; assumption. Qed.
 Print Assumptions C16_matcher_never_matches_is_reported.
+
+(** * Which selectors are checked (the "checked selector" premise of (a)/(b), no longer an opaque list)
+
+    Model/SeriesSelectors.v models getNonFallbackSelectors over the Source tree utils.LabelsSource builds
+    ([sources_of]: Selector / AlwaysReturns / IsConditional / Joins / Unless), including appendJoinSelectors (nested
+    joins followed) and selectorHasFallback (an [or] node with the selector on one side and an always-returning
+    other side); the harness compares [checked e] with the list the real function returns on every case.
+    For every expression of the fragment without [unless] (selectors, always-returning operands, wrappers,
+    comparisons with numbers, [or], joins on either primary side, arbitrarily nested; selectors identified by their
+    position): the checked selectors are ALL selectors of the expression EXCEPT those with their own or-fallback.
+    In particular an always-returning operand elsewhere in the query (and on() hour(), * on() group_left vector(1))
+    exempts nothing. *)
+Theorem C16_checked_selectors_are_those_without_own_fallback : forall e,
+  no_unless e = true -> NoDup (sels e) -> forall i,
+  In i (checked e) <-> In i (sels e) /\ or_fallback e i = false.
+Proof. exact checked_characterised. Qed.
+Print Assumptions C16_checked_selectors_are_those_without_own_fallback.
+
+(** the witnesses of fix 2db4381 and of seed C16-3, and the documented fallback, computed:
+    [notfound > 0 and on() hour()] checks notfound; [(a > 0 and on() hour()) / notfound] checks both;
+    [a * on(x) (b * on(x) notfound)] checks all three; [sum(m or vector(0))] checks nothing;
+    [a * (b or vector(0))] checks a only. *)
+Example C16_checked_selectors_examples :
+  checked (EJoin false (ECmp (ESel 0)) EAlways) = [0%N] /\
+  checked (EJoin false (EJoin false (ECmp (ESel 1)) EAlways) (ESel 30)) = [1%N; 30%N] /\
+  checked (EJoin false (ESel 0) (EJoin false (ESel 11) (ESel 21))) = [0%N; 11%N; 21%N] /\
+  checked (EWrap (EOr (ESel 4) EAlways)) = [] /\
+  checked (EJoin false (ESel 0) (EOr (ESel 5) EAlways)) = [0%N].
+Proof. repeat split; vm_compute; reflexivity. Qed.
 
 (** Non-vacuity: a concrete database where the situations occur (premises satisfiable, conclusions computed):
     m0 present now; m1 never there (Bug) although an ALERTING rule is named m1; m2 there for the whole window
